@@ -86,3 +86,14 @@ type DateTime interface {
 	// GoTime returns the underlying time.Time object.
 	GoTime() time.Time
 }
+
+// unquote returns the contents of the JSON string in data. If data is not a
+// double-quoted string it returns an empty string, which no datetime format
+// parses.
+func unquote(data []byte) string {
+	const quotes = 2
+	if len(data) < quotes || data[0] != '"' || data[len(data)-1] != '"' {
+		return ""
+	}
+	return string(data[1 : len(data)-1])
+}
